@@ -7,7 +7,12 @@ RULE = ("op scripts generated adaptively against the implementation (allocate 1 
         "whole free tail, address hints, every flag combination, reallocate up/down/to zero, whole and partial releases, "
         "releases of adjacent regions in both orders, invalid releases, status queries, byte patterns written and read back, "
         "sync, close+reopen, clear) x block size 64..4096 x mmap-all/partial x strict x trim; sequences that exhaust the "
-        "bitmap so that it relocates between live regions; a case is one script; distinct = distinct script text")
+        "bitmap so that it relocates between live regions; script modes: mixed / solid (statistics kept, clustered sizes, "
+        "regions rarely written so that free extents lie behind the end of the file, solid space asked a little shorter "
+        "than a free extent so that the over-allocated tail reaches a further page) / aligned (free-run layouts cut at "
+        "chosen distances from the page boundaries with lengths at the fit thresholds of a page-aligned request, no run of "
+        "request + one page: first attempt abandoned, full scan, also inside bitmap relocation and trim); "
+        "a case is one script; distinct = distinct script text")
 ASSUME = ["mmap windows of the exfile are assumed to succeed in the model (their behaviour is C12's subject)",
           "non-strict mode: the client releases only (sub-ranges of) regions it owns (double free is what IWFSM_STRICT is for)",
           "the over-allocation decision (double arithmetic on crzsum/crznum/crzvar) is an oracle input of the model, "
